@@ -2138,3 +2138,66 @@ package goatlang
 //@   ensures#rune v.t != TypeString && (v.t & isNumericMask) != 0 ==> result == String(string(rune(v.num)))
 //@ func (Value).convert case TypeString loop 0
 //@   invariant len(b) == len(data)
+
+// ---------------------------------------------------------------------------------------------
+// C14: rendering. Termination: SafeStr (one level below String) only descends into elements whose
+// type is not a container, so the String -> safeStr -> SafeStr -> safeStr -> String chain has
+// bounded depth on every heap, cyclic ones included. Scalars are rendered by fmt.Sprint (%v).
+// ---------------------------------------------------------------------------------------------
+//@ func (Value).safeStr
+//@   property C14
+//@   trusted
+//@ func (*sliceT).SafeStr
+//@   property C14
+//@   requires s != nil
+//@   allocates elems(string)
+//@   callsite#bounded (Value).safeStr: arg_v.t.isSafeStr()
+//@ func (*sliceT).SafeStr loop 0
+//@   invariant s != nil && (cap(p) == 0 || isfresh(arr(p)))
+//@ func (*stringMap).SafeStr
+//@   property C14
+//@   requires m != nil && m.data != nil
+//@   allocates elems(string)
+//@   callsite#bounded (Value).safeStr: arg_v.t.isSafeStr()
+//@ func (*stringMap).SafeStr loop 0
+//@   invariant m != nil && (cap(p) == 0 || isfresh(arr(p)))
+//@ func (*numericMap).SafeStr
+//@   property C14
+//@   requires m != nil && m.data != nil
+//@   allocates elems(string)
+//@   callsite#bounded (Value).safeStr: arg_v.t.isSafeStr()
+//@ func (*numericMap).SafeStr loop 0
+//@   invariant m != nil && (cap(p) == 0 || isfresh(arr(p)))
+//@ func (*structT).SafeStr
+//@   property C14
+//@   requires s != nil && s.Lookup != nil
+//@   allocates elems(string)
+//@   callsite#bounded (Value).safeStr: arg_v.t.isSafeStr()
+//@ func (*structT).SafeStr loop 0
+//@   invariant s != nil && (cap(items) == 0 || isfresh(arr(items)))
+//@ func (*intMap).Get
+//@   property C12 C14
+//@   trusted
+//@ func sprint
+//@   inline
+//@ func vaSprint
+//@   property C14
+//@   allocates elems(string)
+//@   ensures#onespace result == strings.Join(res, " ") && len(res) == len(va)
+//@ func vaSprint loop 0
+//@   invariant len(res) == len(va)
+//@ func (Value).String case TypeBool
+//@   property C14
+//@   ensures#bool result == fmt.Sprint(v.Bool())
+//@ func (Value).String case TypeInt32
+//@   property C14
+//@   ensures#int result == fmt.Sprint(int(v.num))
+//@ func (Value).String case TypeFloat64
+//@   property C14
+//@   ensures#float result == fmt.Sprint(v.num)
+//@ func (Value).String case TypeNil
+//@   property C14
+//@   ensures#nil result == "nil"
+//@ func (Value).String case TypeString
+//@   property C14 C13
+//@   ensures#str is(v.value, stringT) ==> result == string(as(v.value, stringT))
